@@ -102,13 +102,26 @@ func consumePrefix(s, prefix string) (string, bool) {
 	return s, false
 }
 
+// asciiLower lower-cases the ASCII letters of s. The numeric-string grammar is
+// ASCII; strings.ToLower would also map the non-ASCII letters U+0130 and U+212A
+// to "i" and "k", which made "\u0130nf" parse as Infinity.
+func asciiLower(s string) string {
+	b := []byte(s)
+	for i, c := range b {
+		if 'A' <= c && c <= 'Z' {
+			b[i] = c + ('a' - 'A')
+		}
+	}
+	return string(b)
+}
+
 func (d *Decimal) setString(c *Context, s string) (Condition, error) {
 	orig := s
 	s, d.Negative = consumePrefix(s, "-")
 	if !d.Negative {
 		s, _ = consumePrefix(s, "+")
 	}
-	s = strings.ToLower(s)
+	s = asciiLower(s)
 	d.Exponent = 0
 	d.Coeff.SetInt64(0)
 	// Until there are no parse errors, leave as NaN.
